@@ -15,7 +15,17 @@ def packInt (w n : Nat) : R Bytes :=
 
 /-- `struct.unpack(fmt_w, stream.read(w))[0]`, returning the remaining stream -/
 def readInt (w : Nat) (bs : Bytes) : R (Nat × Bytes) :=
-  if bs.length < w then .error .struct else .ok (leVal (bs.take w), bs.drop w)
+  -- `(bs.take w).length < w` is `bs.length < w` computed in O(w) (see `readInt_eq`)
+  if (bs.take w).length < w then .error .struct else .ok (leVal (bs.take w), bs.drop w)
+
+theorem readInt_eq (w : Nat) (bs : Bytes) : readInt w bs =
+    if bs.length < w then .error .struct else .ok (leVal (bs.take w), bs.drop w) := by
+  unfold readInt
+  by_cases h : bs.length < w
+  · have : (bs.take w).length < w := by simp; omega
+    rw [if_pos this, if_pos h]
+  · have : ¬ (bs.take w).length < w := by simp; omega
+    rw [if_neg this, if_neg h]
 
 /-- `[struct.unpack(fmt_w, stream.read(w))[0] for _ in range(n)]` -/
 def readInts (w : Nat) : Nat → Bytes → R (List Nat × Bytes)
@@ -80,7 +90,7 @@ theorem packInt_length {w n : Nat} {b : Bytes} (h : packInt w n = .ok b) : b.len
 
 theorem readInt_ok {w : Nat} {bs rest : Bytes} {v : Nat} (h : readInt w bs = .ok (v, rest)) :
     w ≤ bs.length ∧ v = leVal (bs.take w) ∧ rest = bs.drop w := by
-  unfold readInt at h
+  rw [readInt_eq] at h
   split at h
   · simp at h
   · simp at h; exact ⟨by omega, h.1.symm, h.2.symm⟩
@@ -90,7 +100,7 @@ theorem readInt_packInt {w n : Nat} {b : Bytes} (h : packInt w n = .ok b) (rest 
     readInt w (b ++ rest) = .ok (n, rest) := by
   obtain ⟨hn, hb⟩ := packInt_ok h
   subst hb
-  unfold readInt
+  rw [readInt_eq]
   simp [leVal_leBytes _ _ hn]
 
 /-- packing what was read reproduces the bytes read -/
